@@ -293,6 +293,53 @@ def check_replacement(pr, prev, rep=None, want=None):
     return fails
 
 
+def check_shared_objective(pr, rep=None, want=None):
+    """ONE objective object (and one set of constraint objects) used by several problems: first together with foreign
+    companion constraints over further variables (variable list, count and bounds read), then alone - and the other way
+    round.  Every problem must list exactly the variables IT mentions."""
+    fails = Fails(want)
+    from optyx import Problem
+    from mc.build import Builder
+
+    foreign = [("cmp", ">=", add(("var", "zq"), ("mm", ("arr", (1.0, 2.0)), ("vvar", "yy", 2))), c(1)),
+               ("cmp", "<=", add(("var", "zq"), ("var", "A0")), c(3))]
+    try:
+        b = Builder(params=PR.params_dict(pr), var_attrs=PR.attrs_dict(pr))
+        o = b.build(pr[2])
+        own = [PR.build_constraint(b, cn) for cn in pr[3]]
+        extra = [PR.build_constraint(b, cn) for cn in foreign]
+    except Exception:
+        return fails            # build errors are reported by check_problem
+    names = expected_names(pr)
+    names_x = expected_names(("prob", pr[1], pr[2], tuple(pr[3]) + tuple(foreign)) + tuple(pr[4:]))
+    declare(b, names_x)
+    for order in (("with-companions", "alone"), ("alone", "with-companions", "alone")):
+        for step, which in enumerate(order):
+            try:
+                P = Problem()
+                (P.minimize if pr[1] == "min" else P.maximize)(o)
+                for k in own + (extra if which == "with-companions" else []):
+                    P.subject_to(k)
+                got = [v.name for v in P.variables]
+                n = P.n_variables
+                bounds = [tuple(x) for x in P.get_bounds()]
+            except Exception as ex:
+                fails.add("exception:shared-objective:" + type(ex).__name__, msg=str(ex)[:200], order=order, step=step)
+                break
+            if rep:
+                rep.transitions += 4
+                rep.evaluations += 3
+            exp = names_x if which == "with-companions" else names
+            if got != exp:
+                fails.add("variable-set:shared-objective", got=got, expected=exp, order=order, step=step,
+                          extra=sorted(set(got) - set(exp)), missing=sorted(set(exp) - set(got)))
+                break
+            if n != len(exp) or bounds != [elem_bounds(nm)[:2] for nm in exp]:
+                fails.add("get_bounds:shared-objective", got=bounds, n=n, order=order, step=step)
+                break
+    return fails
+
+
 NSH = 32
 
 
@@ -336,6 +383,11 @@ def explore(item, tier, seed):
                         if k not in seen:
                             seen.add(k)
                             rep.violation(k, {"label": lab, "problem": pr, "previous": prev}, **d)
+            if not fs and len(lab) <= 2:
+                for k, d in check_shared_objective(pr, rep):
+                    if k not in seen:
+                        seen.add(k)
+                        rep.violation(k, {"label": lab, "problem": pr, "shared": True}, **d)
             if rep.states % 301 == 1:
                 rep.sample({"label": lab, "problem": pr})
         return rep
@@ -364,6 +416,8 @@ def culprit(v):
 
 def replay(art):
     pr = detuple(art["violation"]["case"]["problem"])
+    if art["violation"]["case"].get("shared"):
+        return [{"kind": k, "detail": d} for k, d in check_shared_objective(pr, None, want=art["culprit"]["kind"])]
     if art["violation"]["case"].get("previous") is not None:
         fs = check_replacement(pr, detuple(art["violation"]["case"]["previous"]), None, want=art["culprit"]["kind"])
         return [{"kind": k, "detail": d} for k, d in fs]
